@@ -11,140 +11,177 @@ def Inv (c : Cfg) (s : St) : Prop := KeyWf3 c.ttl c.soft s.t
 
 theorem inv_init (c : Cfg) : Inv c init := wf3_init _ _
 
-theorem inv_execute {c : Cfg} (httl : 0 < c.ttl) {s : St} (h : Inv c s) (o : Outcome) (x) :
-    Inv c (execute c s o x).1 := by
+theorem inv_execute {c : Cfg} (httl : 0 < c.ttl) {s : St} (h : Inv c s) (o : Outcome) :
+    Inv c (execute c s o).1 := by
   unfold execute
   cases o
   · exact wf3_save httl _ _
-  · cases x <;> exact h
+  · simp only []; split <;> exact h
   · exact h
   · exact h
   · exact h
 
+/-- the state at the moment the function body, started in `s`, has run for `d` ticks -/
+abbrev later (s : St) (d : Nat) : St := { s with t := advance s.t d }
+
+theorem inv_later {c : Cfg} {s : St} (h : Inv c s) (d : Nat) : Inv c (later s d) := wf3_advance h d
+
 theorem inv_step {c : Cfg} (httl : 0 < c.ttl) (s : St) (op : DOp) (h : Inv c s) : Inv c (step c s op).1 := by
   cases op with
-  | call o =>
-    show Inv c (call c s o).1
+  | call o d =>
+    show Inv c (call c s o d).1
     unfold call
     split
     · split
       · exact h
-      · exact inv_execute httl h o _
-    · exact inv_execute httl h o _
+      · exact inv_execute httl (inv_later h d) o
+    · exact inv_execute httl (inv_later h d) o
   | adv dt => exact wf3_advance h dt
   | done i o => exact h
 
-/-- every call that does not answer from a still-soft-fresh entry executes the function -/
-theorem call_exec {c : Cfg} {s : St} (h : Inv c s) (o : Outcome)
-    (hold : ∀ st id x, cached3 s.t = some (st, id, x) → st + c.soft ≤ s.t.now) :
-    (call c s o).2.exec = true := by
-  have hex : ∀ x, (execute c s o x).2.exec = true := by
-    intro x; unfold execute; cases o
-    · rfl
-    · cases x <;> rfl
-    · rfl
-    · rfl
-    · rfl
-  unfold call
-  split
-  · rename_i st id x hc
-    have hs := cached3_spec h hc
-    have := hold st id x hc
-    have hn : ¬ s.t.now < x := by rw [hs.1]; omega
-    simp only [hn, if_false]
-    exact hex _
-  · exact hex _
-
-/-- a call that hands out a stored result: it is younger than `ttl`, and either it is younger than
-`soft_ttl` and nothing was executed, or the execution made by this call raised a listed exception -/
-theorem call_stored {c : Cfg} {s : St} (h : Inv c s) (o : Outcome) {st id : Nat}
-    (hr : (call c s o).2.res = .stored st id) :
-    st ≤ s.t.now ∧ s.t.now < st + c.ttl ∧
-      ((s.t.now < st + c.soft ∧ (call c s o).2.exec = false) ∨
-       (st + c.soft ≤ s.t.now ∧ (call c s o).2.exec = true ∧ o = .listed)) := by
-  unfold call at hr ⊢
-  split at hr
-  · rename_i st0 id0 x hc
-    have hs := cached3_spec h hc
-    by_cases hn : s.t.now < x
-    · simp only [hn, if_true] at hr ⊢
-      simp at hr
-      obtain ⟨h1, h2⟩ := hr
-      subst h1 h2
-      refine ⟨hs.2.1, hs.2.2.1, Or.inl ⟨by rw [← hs.1]; exact hn, by simp⟩⟩
-    · simp only [hn, if_false] at hr ⊢
-      unfold execute at hr ⊢
-      cases o
-      · simp at hr
-      · simp at hr
-        obtain ⟨h1, h2⟩ := hr
-        subst h1 h2
-        refine ⟨hs.2.1, hs.2.2.1, Or.inr ⟨by rw [hs.1] at hn; omega, by simp, by simp⟩⟩
-      · simp at hr
-      · simp at hr
-      · simp at hr
-  · rename_i hc
-    unfold execute at hr
-    cases o <;> simp at hr
-
-/-- a fresh result is the product of an execution made by this call, stamped now -/
-theorem call_fresh {c : Cfg} {s : St} (o : Outcome) {st id : Nat}
-    (hr : (call c s o).2.res = .fresh st id) :
-    st = s.t.now ∧ (o = .ok ∨ o = .rejected) ∧ (call c s o).2.exec = true := by
-  have hex : ∀ x, (execute c s o x).2.res = .fresh st id →
-      st = s.t.now ∧ (o = .ok ∨ o = .rejected) ∧ (execute c s o x).2.exec = true := by
-    intro x hx; unfold execute at hx ⊢; cases o
-    · simp at hx; exact ⟨hx.1.symm, Or.inl rfl, rfl⟩
-    · cases x <;> simp at hx
-    · simp at hx
-    · simp at hx; exact ⟨hx.1.symm, Or.inr rfl, rfl⟩
-    · simp at hx
-  unfold call at hr ⊢
-  split at hr
-  · rename_i st0 id0 x hc
-    by_cases hn : s.t.now < x
-    · simp [hn] at hr
-    · simp only [hn, if_false] at hr ⊢
-      exact hex _ hr
-  · rename_i hc
-    exact hex _ hr
-
-/-- what a call that executes hands out, by outcome of the execution: a successful execution is answered with its
-own result — or with the exception of its store step — and only `ok` changes the store -/
-theorem execute_spec (c : Cfg) (s : St) (o : Outcome) (x : Option (Nat × Nat × Nat)) :
-    ((o = .ok ∨ o = .rejected) → (execute c s o x).2.res = .fresh s.t.now s.nexec) ∧
-    (∀ st l, o = .storeFails st l → (execute c s o x).2.res = .storeErr l) ∧
-    (o ≠ .ok → (execute c s o x).1.t = s.t) := by
-  unfold execute
-  cases o
-  · simp
-  · cases x <;> simp
-  · simp
-  · simp
-  · simp
-
-theorem execute_exec (c : Cfg) (s : St) (o : Outcome) (x : Option (Nat × Nat × Nat)) :
-    (execute c s o x).2.exec = true := by
+theorem execute_exec (c : Cfg) (s : St) (o : Outcome) : (execute c s o).2.exec = true := by
   unfold execute; cases o
   · rfl
-  · cases x <;> rfl
+  · simp only []; split <;> rfl
   · rfl
   · rfl
   · rfl
 
-/-- a call that executes is a call of `execute`; one that does not leaves the state alone -/
-theorem call_cases (c : Cfg) (s : St) (o : Outcome) :
-    ((call c s o).2.exec = true ∧ ∃ x, call c s o = execute c s o x) ∨
-    ((call c s o).2.exec = false ∧ (call c s o).1 = s) := by
+/-- an execution does not move the clock: it acts at the moment the function finished -/
+theorem execute_now (c : Cfg) (s : St) (o : Outcome) : (execute c s o).1.t.now = s.t.now := by
+  unfold execute; cases o
+  · rfl
+  · simp only []; split <;> rfl
+  · rfl
+  · rfl
+  · rfl
+
+/-- a call that executes is a call of `execute` at the moment the function finished; one that does not leaves the
+state alone, and then the stored result is younger than soft_ttl -/
+theorem call_cases (c : Cfg) (s : St) (o : Outcome) (d : Nat) :
+    ((call c s o d).2.exec = true ∧ call c s o d = execute c (later s d) o ∧
+        ∀ st id x, cached3 s.t = some (st, id, x) → x ≤ s.t.now) ∨
+    ((call c s o d).2.exec = false ∧ (call c s o d).1 = s ∧
+        ∃ st id x, cached3 s.t = some (st, id, x) ∧ s.t.now < x ∧ (call c s o d).2.res = .stored st id) := by
   unfold call
   cases hc : cached3 s.t with
-  | none => exact Or.inl ⟨execute_exec _ _ _ _, _, rfl⟩
+  | none => exact Or.inl ⟨execute_exec _ _ _, rfl, by simp⟩
   | some p =>
     obtain ⟨st, id, x⟩ := p
     simp only []
     by_cases hn : s.t.now < x
-    · simp only [hn, if_true]; exact Or.inr (by simp)
-    · simp only [hn, if_false]; exact Or.inl ⟨execute_exec _ _ _ _, _, rfl⟩
+    · rw [if_pos hn]; exact Or.inr ⟨rfl, rfl, st, id, x, rfl, hn, rfl⟩
+    · rw [if_neg hn]
+      refine Or.inl ⟨execute_exec _ _ _, rfl, ?_⟩
+      intro st' id' x' h
+      simp at h
+      omega
+
+/-- every call that does not answer from a still-soft-fresh entry executes the function -/
+theorem call_exec {c : Cfg} {s : St} (h : Inv c s) (o : Outcome) (d : Nat)
+    (hold : ∀ st id x, cached3 s.t = some (st, id, x) → st + c.soft ≤ s.t.now) :
+    (call c s o d).2.exec = true := by
+  rcases call_cases c s o d with ⟨hx, _⟩ | ⟨_, _, st, id, x, hc, hn, _⟩
+  · exact hx
+  · have hs := cached3_spec h hc
+    have := hold st id x hc
+    omega
+
+/-- the clock after a call is the instant its answer was handed out -/
+theorem call_now (c : Cfg) (s : St) (o : Outcome) (d : Nat) :
+    (call c s o d).1.t.now = servedAt s.t.now d (call c s o d).2 := by
+  unfold servedAt
+  rcases call_cases c s o d with ⟨hx, hcall, _⟩ | ⟨hx, hs, _⟩
+  · rw [hx, hcall, execute_now]; simp
+  · rw [hx, hs]; simp
+
+/-- an execution hands out a stored result only on a listed exception, and the result is younger than ttl at that
+moment (it has just been read again) -/
+theorem execute_stored {c : Cfg} {s : St} (h : Inv c s) (o : Outcome) {st id : Nat}
+    (hr : (execute c s o).2.res = .stored st id) :
+    o = .listed ∧ st ≤ s.t.now ∧ s.t.now < st + c.ttl ∧ ∃ x, cached3 s.t = some (st, id, x) := by
+  unfold execute at hr
+  cases o
+  · simp at hr
+  · simp only [] at hr
+    split at hr
+    · rename_i st0 id0 x0 hc
+      have hs := cached3_spec h hc
+      simp at hr
+      obtain ⟨h1, h2⟩ := hr
+      subst h1 h2
+      exact ⟨rfl, hs.2.1, hs.2.2.1, x0, hc⟩
+    · simp at hr
+  · simp at hr
+  · simp at hr
+  · simp at hr
+
+/-- a call that hands out a stored result `(st, id)`: the result is younger than `ttl` AT THE INSTANT IT IS HANDED OUT,
+and either it was younger than `soft_ttl` when the call began and nothing was executed (the answer is immediate), or it
+was at least `soft_ttl` old then and the execution made by this call raised a listed exception (the answer comes `d`
+ticks after the call began, the result having been read again at that moment) -/
+theorem call_stored {c : Cfg} {s : St} (h : Inv c s) (o : Outcome) (d : Nat) {st id : Nat}
+    (hr : (call c s o d).2.res = .stored st id) :
+    st ≤ servedAt s.t.now d (call c s o d).2 ∧ servedAt s.t.now d (call c s o d).2 < st + c.ttl ∧
+      ((s.t.now < st + c.soft ∧ (call c s o d).2.exec = false) ∨
+       (st + c.soft ≤ s.t.now ∧ (call c s o d).2.exec = true ∧ o = .listed)) := by
+  unfold servedAt
+  rcases call_cases c s o d with ⟨hx, hcall, hold⟩ | ⟨hx, _, st0, id0, x0, hc, hn, hres⟩
+  · rw [hx]
+    rw [hcall] at hr
+    obtain ⟨h1, h2, h3, x, hc'⟩ := execute_stored (inv_later h d) o hr
+    have hc := cached3_of_advance hc'
+    have hs := cached3_spec h hc
+    have := hold st id x hc
+    simp only [advance_now] at h2 h3
+    simp only [if_true]
+    exact ⟨h2, h3, Or.inr ⟨by omega, trivial, h1⟩⟩
+  · rw [hx]
+    rw [hres] at hr
+    simp at hr
+    obtain ⟨h1, h2⟩ := hr
+    subst h1 h2
+    have hs := cached3_spec h hc
+    simp only [Bool.false_eq_true, if_false]
+    exact ⟨hs.2.1, hs.2.2.1, Or.inl ⟨by omega, trivial⟩⟩
+
+/-- a fresh result is the product of an execution made by this call, stamped with the instant it finished -/
+theorem call_fresh {c : Cfg} {s : St} (o : Outcome) (d : Nat) {st id : Nat}
+    (hr : (call c s o d).2.res = .fresh st id) :
+    st = s.t.now + d ∧ (o = .ok ∨ o = .rejected) ∧ (call c s o d).2.exec = true := by
+  rcases call_cases c s o d with ⟨hx, hcall, _⟩ | ⟨_, _, st0, id0, x0, _, _, hres⟩
+  · refine ⟨?_, ?_, hx⟩ <;>
+    · rw [hcall] at hr
+      unfold execute at hr
+      cases o
+      · simp at hr; simp [hr.1.symm]
+      · simp only [] at hr; split at hr <;> simp at hr
+      · simp at hr
+      · simp at hr; simp [hr.1.symm]
+      · simp at hr
+  · rw [hres] at hr; simp at hr
+
+/-- what a call that executes hands out, by outcome of the execution: a successful execution is answered with its
+own result — or with the exception of its store step — and only `ok` changes the store -/
+theorem execute_spec (c : Cfg) (s : St) (o : Outcome) :
+    ((o = .ok ∨ o = .rejected) → (execute c s o).2.res = .fresh s.t.now s.nexec) ∧
+    (∀ st l, o = .storeFails st l → (execute c s o).2.res = .storeErr l) ∧
+    (o ≠ .ok → (execute c s o).1.t = s.t) := by
+  unfold execute
+  cases o
+  · simp
+  · simp only []; split <;> simp
+  · simp
+  · simp
+  · simp
+
+/-- a listed failure is answered with whatever is readable when the function fails: the stored result if there is
+one, the exception otherwise -/
+theorem execute_listed (c : Cfg) (s : St) :
+    (∀ st id x, cached3 s.t = some (st, id, x) → (execute c s .listed).2.res = .stored st id) ∧
+    (cached3 s.t = none → (execute c s .listed).2.res = .raised .listed) := by
+  unfold execute
+  refine ⟨fun st id x hc => by simp [hc], fun hc => by simp [hc]⟩
 
 end Soft
 
@@ -154,34 +191,53 @@ def Inv (c : Cfg) (s : St) : Prop := KeyWf2 c.ttl s.t
 
 theorem inv_init (c : Cfg) : Inv c init := wf2_init _
 
+/-- the state at the moment the function body, started in `s`, has run for `d` ticks -/
+abbrev later (s : St) (d : Nat) : St := { s with t := advance s.t d }
+
+theorem inv_later {c : Cfg} {s : St} (h : Inv c s) (d : Nat) : Inv c (later s d) := wf2_advance h d
+
+theorem inv_afterExec {c : Cfg} (httl : 0 < c.ttl) {s : St} (h : Inv c s) (o : Outcome) : Inv c (afterExec c s o).1 := by
+  unfold afterExec
+  cases o
+  · exact wf2_save httl _ _
+  · simp only []; split <;> exact h
+  · exact h
+  · exact h
+  · exact h
+
 theorem inv_step {c : Cfg} (httl : 0 < c.ttl) (s : St) (op : DOp) (h : Inv c s) : Inv c (step c s op).1 := by
   cases op with
-  | call o =>
-    show Inv c (call c s o).1
-    unfold call
-    cases o
-    · exact wf2_save httl _ _
-    · simp only []; split <;> exact h
-    · exact h
-    · exact h
-    · exact h
+  | call o d => exact inv_afterExec httl (inv_later h d) o
   | adv dt => exact wf2_advance h dt
   | done i o => exact h
 
-theorem call_exec (c : Cfg) (s : St) (o : Outcome) : (call c s o).2.exec = true ∧ (call c s o).1.nexec = s.nexec + 1 := by
-  unfold call
+theorem afterExec_exec (c : Cfg) (s : St) (o : Outcome) :
+    (afterExec c s o).2.exec = true ∧ (afterExec c s o).1.nexec = s.nexec + 1 ∧ (afterExec c s o).1.t.now = s.t.now := by
+  unfold afterExec
   cases o
-  · exact ⟨rfl, rfl⟩
-  · simp only []; split <;> exact ⟨rfl, rfl⟩
-  · exact ⟨rfl, rfl⟩
-  · exact ⟨rfl, rfl⟩
-  · exact ⟨rfl, rfl⟩
+  · exact ⟨rfl, rfl, rfl⟩
+  · simp only []; split <;> exact ⟨rfl, rfl, rfl⟩
+  · exact ⟨rfl, rfl, rfl⟩
+  · exact ⟨rfl, rfl, rfl⟩
+  · exact ⟨rfl, rfl, rfl⟩
 
-/-- a stored result is handed out only when the execution raised a listed exception, and it is younger than ttl -/
-theorem call_stored {c : Cfg} {s : St} (h : Inv c s) (o : Outcome) {st id : Nat}
-    (hr : (call c s o).2.res = .stored st id) :
+/-- every call executes, and its answer is handed out `d` ticks after it began -/
+theorem call_exec (c : Cfg) (s : St) (o : Outcome) (d : Nat) :
+    (call c s o d).2.exec = true ∧ (call c s o d).1.nexec = s.nexec + 1 ∧ (call c s o d).1.t.now = s.t.now + d :=
+  afterExec_exec c (later s d) o
+
+theorem call_now (c : Cfg) (s : St) (o : Outcome) (d : Nat) :
+    (call c s o d).1.t.now = servedAt s.t.now d (call c s o d).2 := by
+  have h := call_exec c s o d
+  unfold servedAt
+  rw [h.1, h.2.2]; simp
+
+/-- a stored result is handed out only when the execution raised a listed exception, and it is younger than ttl at
+the moment it is handed out -/
+theorem afterExec_stored {c : Cfg} {s : St} (h : Inv c s) (o : Outcome) {st id : Nat}
+    (hr : (afterExec c s o).2.res = .stored st id) :
     o = .listed ∧ st ≤ s.t.now ∧ s.t.now < st + c.ttl := by
-  unfold call at hr
+  unfold afterExec at hr
   cases o
   · simp at hr
   · simp only [] at hr
@@ -197,13 +253,18 @@ theorem call_stored {c : Cfg} {s : St} (h : Inv c s) (o : Outcome) {st id : Nat}
   · simp at hr
   · simp at hr
 
+theorem call_stored {c : Cfg} {s : St} (h : Inv c s) (o : Outcome) (d : Nat) {st id : Nat}
+    (hr : (call c s o d).2.res = .stored st id) :
+    o = .listed ∧ st ≤ s.t.now + d ∧ s.t.now + d < st + c.ttl :=
+  afterExec_stored (inv_later h d) o hr
+
 /-- a successful execution is answered with its own result — or with the exception of its store step — and only
 `ok` changes the store -/
-theorem call_spec (c : Cfg) (s : St) (o : Outcome) :
-    ((o = .ok ∨ o = .rejected) → (call c s o).2.res = .fresh s.t.now s.nexec) ∧
-    (∀ st l, o = .storeFails st l → (call c s o).2.res = .storeErr l) ∧
-    (o ≠ .ok → (call c s o).1.t = s.t) := by
-  unfold call
+theorem afterExec_spec (c : Cfg) (s : St) (o : Outcome) :
+    ((o = .ok ∨ o = .rejected) → (afterExec c s o).2.res = .fresh s.t.now s.nexec) ∧
+    (∀ st l, o = .storeFails st l → (afterExec c s o).2.res = .storeErr l) ∧
+    (o ≠ .ok → (afterExec c s o).1.t = s.t) := by
+  unfold afterExec
   cases o
   · simp
   · simp only []; split <;> simp
@@ -211,10 +272,23 @@ theorem call_spec (c : Cfg) (s : St) (o : Outcome) :
   · simp
   · simp
 
-/-- conversely: listed exception and a stored result younger than ttl → that result is the answer -/
-theorem call_listed {c : Cfg} {s : St} {st id : Nat} (hc : cached2 s.t = some (st, id)) :
-    (call c s .listed).2.res = .stored st id := by
-  unfold call
+theorem call_spec (c : Cfg) (s : St) (o : Outcome) (d : Nat) :
+    ((o = .ok ∨ o = .rejected) → (call c s o d).2.res = .fresh (s.t.now + d) s.nexec) ∧
+    (∀ st l, o = .storeFails st l → (call c s o d).2.res = .storeErr l) ∧
+    (o ≠ .ok → (call c s o d).1.t = advance s.t d) :=
+  afterExec_spec c (later s d) o
+
+/-- conversely: listed exception and a stored result still younger than ttl when the function fails → that result is
+the answer -/
+theorem call_listed {c : Cfg} {s : St} {d st id : Nat} (hc : cached2 (advance s.t d) = some (st, id)) :
+    (call c s .listed d).2.res = .stored st id := by
+  unfold call afterExec
+  simp [hc]
+
+/-- … and a stored result that reached its ttl while the function was running is not: the exception propagates -/
+theorem call_listed_expired {c : Cfg} {s : St} {d : Nat} (hc : cached2 (advance s.t d) = none) :
+    (call c s .listed d).2.res = .raised .listed := by
+  unfold call afterExec
   simp [hc]
 
 end Fail
